@@ -7,7 +7,7 @@ ASSUMPTIONS = [
     "Thread::deep_clone_value returns a structurally equal copy (assumed contract; see C13 for its share-or-copy guard)",
     "lazy values (lazy.rs force is an async state machine) and coroutine spawn/resume/yield are NOT covered",
 ]
-NOT_UNDER_CONTRACT = ["vm/src/lazy.rs force/Thunk/Blackhole", "channel::resume/yield_/spawn", "the primitive wrappers recv/send in channel.rs (closures with `_` params are outside Verus's dialect); send's clone step is covered in C13"]
+NOT_UNDER_CONTRACT = ["vm/src/lazy.rs force/Thunk/Blackhole", "channel::resume/yield_/spawn", "the primitive wrapper recv in channel.rs (closure with `_` param is outside Verus's dialect)"]
 
 
 def v(unit, fn, clause, source=None):
@@ -19,6 +19,7 @@ def obligations(tier):
     return [
         v("channel", "Sender::send", "queue' == queue.push(value): appended at the back, nothing else changed", "vm/src/channel.rs::Sender::send"),
         v("channel", "Receiver::try_recv", "empty => Err(()) and queue unchanged (reports emptiness, never blocks); else Ok(queue[0]) and queue' == queue.skip(1)", "vm/src/channel.rs::Receiver::try_recv"),
+        v("channel", "send", "the send primitive never raises; Ok => exactly one value, a copy of the argument, appended at the back; Err => queue unchanged (a failed clone is reported, never swallowed)", "vm/src/channel.rs::send"),
         v("channel", "lemma_fifo", "for every history: received ++ queued == sent (in order, exactly once)", "lemma over the two contracts"),
         v("reference", "set", "Value => cell holds a copy of the argument; Exception => cell unchanged", "vm/src/reference.rs::set"),
         v("reference", "get", "returns exactly the cell content", "vm/src/reference.rs::get"),
